@@ -35,7 +35,11 @@ def check_instant(rm, rep, name, events, seen):
     for ev in dl:
         L = ev.loop
         ok, why = True, ''
+        from checks.solver_common import carry_as_previous
+        carry_map = carry_as_previous(L, ev, ctx)
         for idx, attr, val, g in [s for s in ev.stores if s[1] == 'driving_torque']:
+            if carry_map and getattr(val, 'term', None) is not None:
+                val = type(val)(val.kind, ctx.reduce(ctx.subst(val.term, carry_map)), val.unit) if hasattr(val, 'kind') else val
             me = ctx.show(L.index + Rat.const(idx.b))
             up = ctx.show(L.index + Rat.const(idx.b - 1))
             want = Rat.atom(f'E[{up}].driving_torque') * Rat.atom(f'E[{me}].master_gear_efficiency') * \
